@@ -140,3 +140,29 @@ def not_raw(h):
     c = h.call(cond, x)
     r = h.call(pf, x)
     h.check('raw-condition-penalised-where-zero', 'iff(r > 0, c == 0) and r >= 0', r=r, c=c)
+
+
+def _not_explicit(h, ptype, member_is_penalty):
+    """not_(member, ptype=<type>): the kind of inversion follows the *resolved* ptype, also for a raw condition"""
+    k = h.real('k')
+    h.assume('k > 0', k=k)
+    cond = h.fn('condition', ret='real')
+    if member_is_penalty:
+        member = h.call(h.call(h.get(P + ptype), cond, k=k), h.fn('zero', ret='real'))
+    else:
+        member = cond
+    pf = h.call(h.get(C + 'not_'), member, ptype=h.get(P + ptype), k=k)
+    x = h.list_real('x')
+    c = h.call(cond, x)
+    r = h.call(pf, x)
+    if ptype.endswith('_inequality'):
+        # the member accepts c <= 0; its interior c < 0 is what not_ penalises
+        h.check('penalises-exactly-the-interior', 'iff(r > 0, c < 0) and r >= 0', r=r, c=c)
+    else:
+        h.check('penalises-exactly-the-accepted-set', 'iff(r > 0, c == 0) and r >= 0', r=r, c=c)
+
+
+for _pt in ('quadratic_inequality', 'linear_inequality', 'quadratic_equality', 'linear_equality'):
+    for _pen in (False, True):
+        contract('C17/penalty.not_/explicit-ptype=%s,%s' % (_pt, 'penalty' if _pen else 'raw-condition'), ['C17'], C + 'not_')(
+            lambda h, p=_pt, m=_pen: _not_explicit(h, p, m))
